@@ -139,6 +139,28 @@ def neighbour_cases(rng, count):
     return [{"strings": strs[k:k + 1000]} for k in range(0, len(strs), 1000)]
 
 
+def long_neighbour_cases(rng, count):
+    """texts with one long element name or one big bucket, valid or made invalid by an empty element (doubled comma,
+    blank element, comma before the closing bracket) placed after the long part: the parser answers or refuses at once
+    whatever the length (a validation that backtracks would not)"""
+    longs = ["x" * 40, "abcdefghij" * 5, "a1" * 24, ", ".join(str(v) for v in range(10, 34)),
+             ", ".join("e%d" % v for v in range(1, 20))]
+    out = []
+    for body in longs:
+        for op, cl in (("{", "}"), ("[", "]")):
+            good = "[" + op + body + cl + ", " + op + "zz" + cl + "]"
+            out.append(good)
+            for bad in (",,", ", ,", ",", ", "):
+                out.append("[" + op + body + bad + cl + ", " + op + "zz" + cl + "]")
+                out.append("[" + op + body + bad + "q" + cl + "]")
+                out.append("[" + op + "zz" + cl + ", " + op + body + bad + cl + "]")
+            out.append("[" + op + body + cl + bad + "]")
+            out.append("[" + op + body + " " + cl + "]")
+    rng.shuffle(out)
+    out = out[:count]
+    return [{"strings": out[k:k + 8]} for k in range(0, len(out), 8)]
+
+
 def run_filetext(case):
     """arbitrary text as a dataset FILE: the reader must return a dataset or refuse with ValueError (an empty result is
     refused with the library's EmptyDatasetException); nothing else, no hang"""
@@ -220,6 +242,8 @@ def stages(tier, rng, only=None):
                  lambda: total_cases(5, rng, 7, 20000) if tier == "quick" else total_cases(6, rng, 8, 200000),
                  None, _init, chunk=2000),
            Stage("neighbours", "Trace_Text", run_total, lambda: neighbour_cases(rng, 150 if tier == "quick" else 1500),
+                 None, _init, chunk=2000),
+           Stage("long_neighbours", "Trace_Text", run_total, lambda: long_neighbour_cases(rng, 96 if tier == "quick" else 200),
                  None, _init, chunk=2000),
            Stage("files", "Trace_Dataset", datarun.run_file,
                  lambda: file_cases(grids.datasets(3, 2) if tier == "quick" else grids.datasets(3, 3)),
